@@ -206,7 +206,7 @@ theorem getD_map_mul (row : List ℝ) (c : ℝ) (i : ℕ) : (row.map (c * ·)).g
   simp only [List.getD_eq_getElem?_getD, List.getElem?_map]
   cases row[i]? <;> simp
 
-theorem foldl_add_eq' (l : List ℝ) (x : ℝ) : l.foldl (· + ·) x = x + l.sum := by
+theorem foldl_add_eqC (l : List ℝ) (x : ℝ) : l.foldl (· + ·) x = x + l.sum := by
   induction l generalizing x with
   | nil => simp
   | cons a t ih => simp only [List.foldl_cons, List.sum_cons, ih]; ring
@@ -217,7 +217,7 @@ theorem sgAt_homog (m : ℕ) (row : List ℝ) (c : ℝ) (idx : Int) :
   simp only [List.length_map]
   split
   · simp
-  · simp only [getD_map_mul, ofNat_real, Nat.cast_zero, foldl_add_eq']
+  · simp only [getD_map_mul, ofNat_real, Nat.cast_zero, foldl_add_eqC]
     have : (List.map (fun r => (sgCoeff m (r + 1) : ℝ) * (c * row.getD (idx.toNat + (r + 1)) 0 + c * row.getD (idx.toNat - (r + 1)) 0))
         (List.range ((m - 1) / 2))).sum
         = c * (List.map (fun r => (sgCoeff m (r + 1) : ℝ) * (row.getD (idx.toNat + (r + 1)) 0 + row.getD (idx.toNat - (r + 1)) 0))
